@@ -518,7 +518,7 @@ func (x *evalCtx) node(n *Node, sc *tScope) (string, int, int) {
 				return "", st, ctlNone
 			}
 			if k == "loop" {
-				return "", sUnspec, ctlNone
+				return "", sErr, ctlNone // the name loop can never be supplied
 			}
 			cs.vars[k] = v // bound for this use, whatever the caller has under that name
 		}
